@@ -5,6 +5,7 @@
           h_send_sched sqrange <lo> <hi>         every argument in [lo, hi)
           h_send_sched retry <blo> <bhi> <na> <seed>   births number blo..bhi-1 x na ages x 2 channels
                                                  (dense + boundary + random; birth i is a function of (seed, i) only)
+          h_send_sched sq1 <x> | retry1 <birth> <age> <chan>     replay of one case
    Reference: isqrt by Newton iteration + fix-up (independent of the bit-by-bit method);
    nextretry(birth, c) = birth + (isqrt(max(0, recent - birth)) + (c == 0 ? 10 : 20))^2 and > recent. */
 #include <unistd.h>
@@ -111,6 +112,10 @@ int main(int argc, char **argv)
         for (c = 0; c < 2; c++) retry(birth, age, c);
       }
     }
+  } else if (!strcmp(argv[1], "sq1") && argc >= 3) {
+    sq(strtoul(argv[2], 0, 10), 1);
+  } else if (!strcmp(argv[1], "retry1") && argc >= 5) {
+    retry(atol(argv[2]), atol(argv[3]), atoi(argv[4]));
   } else return 2;
   nqv_counter("cases", cases);
   nqv_counter("nontrivial", nontriv);
